@@ -59,6 +59,24 @@ def same(got: Any, want: Any) -> bool:
     return got == want and isinstance(want, (int, float, str, tuple, bool, type(None)))
 
 
+class Tok:
+    """an element of a sequence_equal lane: equal (==, hash) by value token, but remembering the lane it was
+    emitted by, so that the comparer can tell in which order it was handed its two arguments"""
+    __slots__ = ("t", "lane")
+
+    def __init__(self, t, lane):
+        self.t, self.lane = t, lane
+
+    def __eq__(self, other):
+        return isinstance(other, Tok) and other.t == self.t
+
+    def __hash__(self):
+        return hash(("Tok", self.t))
+
+    def __repr__(self):
+        return f"Tok({self.t},lane{self.lane})"
+
+
 class Codec:
     """lane i (1-based), element token j -> Python object.  For the value-agnostic operators the token
     is the position j = 1.. of the element in its lane; for sequence_equal it is a value token shared
@@ -69,13 +87,15 @@ class Codec:
         self.profile = profile
         maxlen = max([len(l) for l in scn["lanes"]] + [scn["par"]["m"], 1]) + 1
         self.errs = [None] + [SrcErr(f"lane{i}") for i in range(1, self.n + 1)]
+        self.swapped = False     # the comparer was handed (second's element, source's element)
         if self.op == "sequence_equal":
             if profile == "plain":
-                shared = [f"v{t}" for t in range(8)] if salt % 2 else [10 + t for t in range(8)]
+                self.shared = None
+                self.vals = [None] + [{t: Tok(t, i) for t in range(8)} for i in range(1, self.n + 1)]
             else:
                 shared = [_fresh(FALSY_NEQ[(salt + t) % len(FALSY_NEQ)]) for t in range(len(FALSY_NEQ))]
-            self.shared = shared
-            self.vals = [None] + [{t: shared[t] for t in range(len(shared))} for _ in range(self.n)]
+                self.shared = shared
+                self.vals = [None] + [{t: shared[t] for t in range(len(shared))} for _ in range(self.n)]
         elif profile == "plain":
             self.vals = [None] + [{j: (f"s{i}e{j}" if (salt + i) % 2 else 100 * i + j) for j in range(1, maxlen + 1)}
                                   for i in range(1, self.n + 1)]
@@ -86,6 +106,8 @@ class Codec:
                                    else [_fresh(FALSY[(j + salt) % len(FALSY)]) for j in range(1, maxlen + 2)])
 
     def tok(self, x: Any) -> Optional[int]:
+        if isinstance(x, Tok):
+            return x.t
         for t, v in enumerate(self.shared):
             if same(x, v):
                 return t
@@ -95,6 +117,8 @@ class Codec:
 def cmp_fn(code: int, cod: Codec):
     def c(a, b):
         ta, tb = cod.tok(a), cod.tok(b)
+        if isinstance(a, Tok) and isinstance(b, Tok) and (a.lane, b.lane) == (2, 1):
+            cod.swapped = True
         if code == 0:
             return ta == tb
         if code == 1:
@@ -103,6 +127,8 @@ def cmp_fn(code: int, cod: Codec):
             return False
         if code == 3:
             return True
+        if code == 5:
+            return ta <= tb
         raise FnErr("cmp")
     return c
 
@@ -194,7 +220,18 @@ def run_scenario(scn: Dict[str, Any], var: Dict[str, Any]) -> Optional[Dict[str,
     if disposes and var.get("dfirst", True):
         s.schedule_absolute(absolute(T(dsp)), lambda *_: holder["d"].dispose())
     srcs: List[Any] = [None] * n
+    # share: lanes with identical timelines are ONE observable object passed several times (zip(xs, xs))
+    rep_of = list(range(n))
+    if var.get("share"):
+        for j in range(n):
+            for i in range(j):
+                if lanes[i] == lanes[j] and var["kinds"][i] == var["kinds"][j]:
+                    rep_of[j] = rep_of[i]
+                    cod.vals[j + 1], cod.errs[j + 1] = cod.vals[rep_of[i] + 1], cod.errs[rep_of[i] + 1]
+                    break
     for i in var["order"]:
+        if rep_of[i] != i:
+            continue
         # a notification at the subscription instant itself can only come from a cold source
         hot = var["kinds"][i] == "h" and not any(e["t"] == 0 for e in lanes[i])
         msgs = []
@@ -207,6 +244,8 @@ def run_scenario(scn: Dict[str, Any], var: Dict[str, Any]) -> Optional[Dict[str,
             else:
                 msgs.append(Recorded(t, OnError(cod.errs[i + 1])))
         srcs[i] = HotObservable(s, msgs) if hot else ColdObservable(s, msgs)
+    for i in range(n):
+        srcs[i] = srcs[rep_of[i]]
     ys = build(scn, var["form"], srcs, cod)
     if ys is None:
         return None
@@ -229,15 +268,18 @@ def run_scenario(scn: Dict[str, Any], var: Dict[str, Any]) -> Optional[Dict[str,
         VirtualTimeScheduler.start(s)
     except Exception as e:  # an exception that escaped into the scheduler / emitter
         escaped = e
+    # one subscription log per distinct observable, with the lanes (1-based) it stands for
     subs = []
-    for x in srcs:
-        subs.append([(back(u.subscribe), NEVER_T if u.unsubscribe == NEVER_T else back(u.unsubscribe))
-                     for u in x.subscriptions])
+    for i in range(n):
+        if rep_of[i] == i:
+            subs.append(([j + 1 for j in range(n) if rep_of[j] == i],
+                         [(back(u.subscribe), NEVER_T if u.unsubscribe == NEVER_T else back(u.unsubscribe))
+                          for u in srcs[i].subscriptions]))
     if var.get("sched", "test") != "test":
         # ColdObservable logs int(to_seconds(now)) = epoch seconds at dispose; bring back to ticks
         from datetime import datetime, timezone
         epoch0 = datetime(2001, 2, 3, 4, 5, 6, tzinfo=timezone.utc).timestamp()
-        subs = [[(a, b if b == NEVER_T or b < 10 ** 6 else b - epoch0) for a, b in l] for l in subs]
+        subs = [(g, [(a, b if b == NEVER_T or b < 10 ** 6 else b - epoch0) for a, b in l]) for g, l in subs]
     return {"rec": rec, "subs": subs, "cod": cod, "escaped": escaped, "T": T,
             "dtime": T(dsp) if disposes else None}
 
@@ -288,20 +330,22 @@ def compare(scn: Dict[str, Any], exp: Dict[str, Any], got: Dict[str, Any]) -> Op
         term_t = got["dtime"] if scn["dsp"] >= 0 else (rec[-1][0] if rec else None)
     # an empty iterable may complete the result at the subscription instant without subscribing the source
     at_sub = scn["op"] == "zip_with_iterable" and scn["par"]["m"] == 0 and len(out) == 1
-    for i, l in enumerate(got["subs"], start=1):
+    for lanes_of, l in got["subs"]:
+        name = "lane" + "+".join(map(str, lanes_of))
         if at_sub and not l:
             continue
-        if len(l) != 1:
-            return f"subcount:lane{i}:{len(l)}"
-        if l[0][0] != 200:
-            return f"subtime:lane{i}:{l[0][0]}"
-        if term_t is not None and not l[0][1] <= term_t:
-            return f"leak:lane{i} unsubscribed {'never' if l[0][1] == NEVER_T else l[0][1]} result ended {term_t}"
+        if len(l) != len(lanes_of):
+            return f"subcount:{name}:{len(l)}"
+        for sub_t, unsub_t in l:
+            if sub_t != 200:
+                return f"subtime:{name}:{sub_t}"
+            if term_t is not None and not unsub_t <= term_t:
+                return f"leak:{name} unsubscribed {'never' if unsub_t == NEVER_T else unsub_t} result ended {term_t}"
         if scn["op"] == "amb":
-            u = exp["unsub"][i - 1]
-            want = T(u) if u >= 0 else NEVER_T
-            if l[0][1] != want:
-                return f"amb_unsub:lane{i} unsubscribed {'never' if l[0][1] == NEVER_T else l[0][1]} expected {'never' if want == NEVER_T else want}"
+            want = sorted(T(exp["unsub"][i - 1]) if exp["unsub"][i - 1] >= 0 else NEVER_T for i in lanes_of)
+            have = sorted(u for _, u in l)
+            if have != want:
+                return f"amb_unsub:{name} unsubscribed {have} expected {want}".replace(str(NEVER_T), "never")
     return None
 
 
@@ -323,7 +367,14 @@ def judge(scn, allowed, var) -> Any:
     # the most specific reason: prefer one from an allowed observation of the same length
     reasons.sort(key=lambda r: (r.startswith("count"), r.startswith("kind")))
     rec = got["rec"]
-    return {"engine": "combine", "op": scn["op"], "n": scn["n"], "scn": scn, "var": var, "expected": allowed,
+    extra = {}
+    if scn["op"] == "sequence_equal":
+        # witness for the comparer-argument-order defect: did the real operator hand the comparer
+        # (second's element, source's element) in this run?  (lane-tagged elements: plain profile)
+        g2 = got if var["profile"] == "plain" and (scn["par"]["cmp"] or var["form"] != "pipe") else \
+            run_scenario(scn, dict(var, profile="plain", form="fluent" if scn["par"]["cmp"] == 0 else var["form"]))
+        extra = {"cmp_code": scn["par"]["cmp"], "comparer_args_swapped": bool(g2 and g2["cod"].swapped)}
+    return {**extra, "engine": "combine", "op": scn["op"], "n": scn["n"], "scn": scn, "var": var, "expected": allowed,
             "observed": describe(got), "reason": reasons[0], "reason_kind": reasons[0].split(":")[0],
             "form": var["form"], "kinds": "".join(var["kinds"]), "sched": var.get("sched", "test"),
             "observed_kinds": "".join(k for _, k, _ in rec),
@@ -366,6 +417,8 @@ def preset(name):
 
 
 PRESETS = {   # mirrors `Families` in OpsCombine.tla (documentation for the evidence file only)
+    "seqeq_quick": ["sequence_equal(observable) x <=2 elements over 2 value tokens x instants 1..2 x {C} x 5 comparer codes",
+                    "sequence_equal(observable) x <=1 element x instants 1..2 x {C,E,U} x 5 comparer codes"],
     "quick": ["5 core operators x 1..2 sources x <=2 elements x instants 1..3 x {C,E,U}",
               "5 core operators x 3 sources x <=1 element x instants 1..2 x {C,U}",
               "5 core + take_until, skip_until, zip_with_iterable x 2 sources x <=1 element x instants 1..2 x {C,E,U} x "
@@ -443,6 +496,10 @@ def variants_for(scn, level: int = 1, sched: str = "test", profile: str = "plain
         add("h" * n, orders[-1], forms[(h + 1) % len(forms)], tmaps[(h + 2) % 3], False)
         mixed = "".join("hc"[(i + h) % 2] for i in range(n))
         add(mixed, orders[h % len(orders)], forms[h % len(forms)], tmaps[h % 3], bool(h % 2))
+        if any(scn["lanes"][i] == scn["lanes"][j] and scn["lanes"][i] for j in range(n) for i in range(j)):
+            # identical non-empty timelines: also as one observable passed twice (zip(xs, xs))
+            out.append(dict(kinds=list("hc"[h % 2] * n), order=orders[0], form=forms[h % len(forms)], tmap=tmaps[h % 3],
+                            profile=profile, salt=h % 2, sched=sched, dfirst=bool(h % 2), share=True))
     if level >= 2:
         for o in orders:
             for f in forms + (["fluent"] if level >= 3 else []):
@@ -532,19 +589,21 @@ def generic_replay(rec) -> int:
 
 
 # ---- entry point for the C06 extension ------------------------------------------------------------------
-def sequence_equal_observable(ck, tier: str, procs: int = 8) -> Dict[str, int]:
+def sequence_equal_observable(ck, tier: str, procs: int = 1) -> Dict[str, int]:
     """sequence_equal with an OBSERVABLE second argument, judged by OpsCombine.tla (two lanes of value
     tokens, every comparer code, every tie order).  Adds its TLC runs, replays and failures to `ck`
     (a core.Check of any property, e.g. C06) and returns counts.  Failure records carry
     engine='combine', op='sequence_equal'."""
     from harness import core
     if tier == "quick":
-        c = consts(["sequence_equal"], {2}, 2, 3, nvals=2, faults=True)
+        c = dict(preset("seqeq_quick"), Faults=True)     # two families, about 5k scenarios / 30k states
     else:
-        c = consts(["sequence_equal"], {2}, 3, 4, nvals=2, faults=True)
+        c = consts(["sequence_equal"], {2}, 2, 2, nvals=2, faults=True)      # about 21k scenarios
     lines = export_runs(ck, [("sequence_equal(observable) " + json.dumps({k: sorted(v) if isinstance(v, set) else v for k, v in c.items()}), c)])
     groups = core.group_allowed(lines)
-    level = 1 if tier == "quick" else 2
-    ran = replay_groups(ck, groups, lambda s: variants_for(s, level) + variants_for(s, 0, profile="falsy"), procs=procs)
+    def vfn(s):
+        h = sum(map(ord, json.dumps(s, sort_keys=True)))
+        return variants_for(s, 1) + variants_for(s, 0, profile="falsy")[h % 2:][:1]
+    ran = replay_groups(ck, groups, vfn, procs=procs)
     return {"scenarios": len(groups), "replayed": ran,
             "nontrivial": sum(1 for g in groups if len(g[1]) > 1 or any(e["k"] == "N" and e["v"] == 0 for a in g[1] for e in a["out"]))}
